@@ -10,4 +10,9 @@ CLAIMS = {
         "note": "Trusted: numpy Generator(PCG64(seed)) is deterministic; ASE/numpy arithmetic is reproducible. Not decided: 'different seeds give different trajectories'.",
         "technique": "static who-may-call over resolved imports + receiver provenance dataflow + finite case analysis of the seed path",
     },
+    "C08": {
+        "text": "Table agreement decided for every serializable class discovered by introspection of the parsed package (so classes added later are included): registered under its own name by a module the relevant imports execute (S1), lookup bases admit what writers store (S2), emitted kwargs accepted by the constructor chain (S3), every constructor parameter / tunable / driver setting emitted (S4), emitted value inverts the constructor's arithmetic (S5, sympy normal form), and an import-order simulation for every public module as first import (S6; all ordered pairs in the thorough tier).",
+        "note": "Trusted: ASE's JSON encoder round-trips ndarray/Atoms/Cell; Python import semantics as modelled (module-level statements, partially initialised modules, submodule fallback). Callables and user-registered classes are outside. ForceBias/AdaptiveForceBias serialization gaps are listed known findings.",
+        "technique": "abstract interpretation of to_dict chains into schemas + constructor-chain resolution + registry/lookup table comparison + import-order simulation",
+    },
 }
